@@ -89,8 +89,8 @@ Proof. exact all_spec. Qed.
 Print Assumptions c08_all.
 
 (* the hypothesis is satisfiable: the identity encoding used by the correspondence run *)
-Example c08_instance : forall c, spec_ok eout hE eout_eqb c (model eout hE c) = true.
-Proof. exact (all_spec eout hE eout_eqb eout_eqb_spec). Qed.
+Example c08_instance : forall ed c, spec_ok eout (hEd ed) eout_eqb c (model eout (hEd ed) c) = true.
+Proof. exact (fun ed => all_spec eout (hEd ed) eout_eqb eout_eqb_spec). Qed.
 
 (* the code before the fix: commits 339af9b (marginalize_annotations) and 422982e
    (ablate_annotations): iterating over range(len(y_befores)) = the number of annotations *)
